@@ -12,6 +12,7 @@ import pendulum
 from pendulum import DateTime, Duration, Interval
 from pendulum._pendulum import parse_iso8601 as rs_parse
 from pendulum.parsing.iso8601 import parse_iso8601 as py_parse
+from vf import oracle_tz as T
 from vf import strategies as S
 from vf.core import Skip, Sub, Violation, req
 
@@ -265,4 +266,70 @@ class Intervals(Sub):
         return True, form
 
 
-SUBS = [Durations(), InvalidDurations(), Intervals()]
+class ZoneIntervals(Sub):
+    name = "intervals_in_dst_zones"
+    n = {"quick": 8000, "thorough": 200000}
+    shards = {"quick": 2, "thorough": 8}
+    rule = ("'start/duration' and 'duration/end' without an offset, parsed with tz=<zone with DST> and the written endpoint within three days of an offset change; "
+            "the missing endpoint is start + D / end - D for the Duration D the duration text denotes, which shifts by the components as written (36 hours "
+            "are 36 elapsed hours, not a calendar day and 12 hours), computed by an independent model: with a year/month/day component everything moves the "
+            "wall clock and is resolved on the post-transition side, a pure time duration is elapsed time; also compared with endpoint +/- parse(duration "
+            "text); non-trivial: the two endpoints have different UTC offsets")
+
+    def strategy(self, ctx):
+        @st.composite
+        def gen(draw):
+            z = draw(st.sampled_from(["Europe/Paris", "America/New_York", "Australia/Lord_Howe", "America/Sao_Paulo", "Europe/London", "Asia/Tehran"]))
+            tr = T.transitions(z)
+            t = tr[draw(st.integers(0, len(tr) - 1))][0]
+            u = S.clamp_u(t * US + draw(S.uni(-3 * 86400 * US, 3 * 86400 * US)))
+            return {"zone": z, "u": u, "form": draw(st.sampled_from(["start/duration", "duration/end"])),
+                    "dur": {"y": draw(st.sampled_from([0, 0, 0, 1])), "mo": draw(st.sampled_from([0, 0, 0, 1, 6])), "d": draw(st.sampled_from([0, 0, 1, 2, 7])),
+                            "h": draw(st.sampled_from([0, 1, 12, 23, 24, 25, 36, 47, 48, 72]) | st.integers(0, 100)), "mi": draw(st.sampled_from([0, 0, 30, 1440, 1500]) | st.integers(0, 200)),
+                            "s": draw(st.sampled_from([0, 0, 86400, 90000]) | st.integers(0, 5000)), "frac": draw(st.sampled_from(["", "", "5", "123456"]))}}
+        return gen()
+
+    def check(self, case, ctx):
+        z, c, form = case["zone"], case["dur"], case["form"]
+        loc = T.render(case["u"], z)
+        wall = D.datetime(*T.fields(loc))
+        kind, pre, _ = T.classify_wall(T.naive_us(wall), z)
+        if kind != "unique" or not 1900 <= wall.year <= 2100:
+            raise Skip("written endpoint is not a unique wall time of the zone / outside 1900..2100")
+        ds = "P" + "".join(f"{c[k]}{u}" for k, u in (("y", "Y"), ("mo", "M"), ("d", "D")) if c[k])
+        t = "".join(f"{c[k]}{u}" for k, u in (("h", "H"), ("mi", "M")) if c[k])
+        if c["s"] or c["frac"]:
+            t += f"{c['s']}" + (("." + c["frac"]) if c["frac"] else "") + "S"
+        ds = ds + ("T" + t if t else "")
+        if ds == "P":
+            ds = "PT0S"
+        frac_us = int(c["frac"].ljust(6, "0")) if c["frac"] else 0
+        secs = (c["h"] * 60 + c["mi"]) * 60 + c["s"]
+        days = c["d"]
+        sign = 1 if form == "start/duration" else -1
+        if c["y"] or c["mo"] or days:
+            # add()/subtract() with a calendar unit moves the wall clock by every unit and resolves the result on the post-transition side
+            tm = wall.year * 12 + wall.month - 1 + sign * (c["y"] * 12 + c["mo"])
+            yy, mm = divmod(tm, 12)
+            dd = min(wall.day, calendar.monthrange(yy, mm + 1)[1])
+            w2 = wall.replace(year=yy, month=mm + 1, day=dd) + sign * D.timedelta(days=days, seconds=secs, microseconds=frac_us)
+            exp = T.expected_construct(T.naive_us(w2), z, 1)[1]
+            if exp is None:
+                raise Skip("model does not commit at a compound transition")
+        else:
+            exp = case["u"] + sign * (secs * US + frac_us)
+        text = (iso(wall, None, False) + "/" + ds) if form == "start/duration" else (ds + "/" + iso(wall, None, False))
+        r = pendulum.parse(text, tz=z)
+        req(isinstance(r, Interval) and type(r.start) is DateTime and type(r.end) is DateTime, f"parse({text!r}, tz={z!r}) is not an Interval of DateTimes", got=repr(r))
+        given, computed = (r.start, r.end) if form == "start/duration" else (r.end, r.start)
+        req(T.us(given) == case["u"] and given.timezone_name == z, f"parse({text!r}, tz={z!r}): the written endpoint is wrong", got=str(given))
+        req(T.us(computed) == exp and computed.timezone_name == z, f"parse({text!r}, tz={z!r}): missing endpoint is not start.add(duration) / end.subtract(duration)",
+            got=str(computed), expected=T.render(exp, z).isoformat())
+        # and it is what adding the parsed Duration itself gives
+        dur = pendulum.parse(ds)
+        alt = given + dur if sign > 0 else given - dur
+        req(T.us(alt) == T.us(computed), f"parse({text!r}, tz={z!r}): missing endpoint differs from endpoint +/- parse({ds!r})", got=str(computed), via_duration=str(alt))
+        return given.utcoffset() != computed.utcoffset(), form + (":time>=24h" if secs >= 86400 else "")
+
+
+SUBS = [Durations(), InvalidDurations(), Intervals(), ZoneIntervals()]
